@@ -583,6 +583,24 @@ Proof.
   intros H; inversion H; subst. split; [reflexivity|exact E].
 Qed.
 
+Lemma served_content_safe p host public f root cwd P c :
+  unsafe_b (percent_decode p) = false ->
+  request_fs_path host public p = Ok (Some f) ->
+  wf_pos root -> wf_pos cwd ->
+  resolve_path root cwd (host ++ [c_slash] ++ public) = Some P ->
+  read_path root cwd f = Some c ->
+  exists names, names <> [] /\ Forall (fun s => proper_name s = true) names /\
+                descend (fst P) names = Some (File c).
+Proof.
+  intros U F Wr Wc RP RD.
+  destruct (request_fs_path_some _ _ _ _ F) as (d & t & Du & -> & ->).
+  apply decoded_for_use_some in Du as [Ed _].
+  unfold read_path in RD. rewrite resolve_path_make_path, RP in RD.
+  apply (safe_read_inside (c_slash :: t)); [rewrite Ed; exact U| |exact RD].
+  unfold resolve_path in RP. destruct (starts_with [c_slash] (host ++ [c_slash] ++ public));
+    (eapply resolve_wf; [|exact RP]; assumption).
+Qed.
+
 Lemma served_content_lemma p host public f root cwd P c :
   sanitize_path p = Ok tt ->
   request_fs_path host public p = Ok (Some f) ->
@@ -592,14 +610,8 @@ Lemma served_content_lemma p host public f root cwd P c :
   exists names, names <> [] /\ Forall (fun s => proper_name s = true) names /\
                 descend (fst P) names = Some (File c).
 Proof.
-  intros S F Wr Wc RP RD.
-  rewrite sanitize_path_spec in S. destruct (unsafe_b (percent_decode p)) eqn:U; [discriminate|].
-  destruct (request_fs_path_some _ _ _ _ F) as (d & t & Du & -> & ->).
-  apply decoded_for_use_some in Du as [Ed _].
-  unfold read_path in RD. rewrite resolve_path_make_path, RP in RD.
-  apply (safe_read_inside (c_slash :: t)); [rewrite Ed; exact U| |exact RD].
-  unfold resolve_path in RP. destruct (starts_with [c_slash] (host ++ [c_slash] ++ public));
-    (eapply resolve_wf; [|exact RP]; assumption).
+  intros S. rewrite sanitize_path_spec in S. destruct (unsafe_b (percent_decode p)) eqn:U; [discriminate|].
+  apply served_content_safe. exact U.
 Qed.
 
 Lemma request_fs_path_no_panic host public p :
@@ -609,4 +621,329 @@ Proof.
   unfold request_fs_path. destruct (decoded_for_use p) as [d|] eqn:E; [|discriminate].
   apply decoded_for_use_some in E as [-> _].
   destruct (safe_shape _ U) as (t & _ & _ & -> & _). cbn [parse_uri]. rewrite N.eqb_refl. discriminate.
+Qed.
+
+(** ------------------------------------------------------------------ *)
+(** * Theorem 2: exactly the unsafe paths are rejected *)
+
+Lemma unsafe_is_rejected_lemma p : unsafe (percent_decode p) <-> sanitize_path p = Err E_UNSAFE.
+Proof.
+  rewrite sanitize_path_spec, <- unsafe_b_iff.
+  destruct (unsafe_b (percent_decode p)); split; try reflexivity; discriminate.
+Qed.
+
+Lemma sanitize_path_total p : sanitize_path p = Ok tt \/ sanitize_path p = Err E_UNSAFE.
+Proof. rewrite sanitize_path_spec. destruct (unsafe_b _); auto. Qed.
+
+(** ------------------------------------------------------------------ *)
+(** * Percent-decoding, one step *)
+
+Inductive pd_step (s : bytes) : Prop :=
+| PD_nil : s = [] -> pd_step s
+| PD_lit c r : s = c :: r -> percent_decode s = c :: percent_decode r ->
+               (c = c_pct -> forall h l r', r = h :: l :: r' -> hex_val h = None \/ hex_val l = None) -> pd_step s
+| PD_esc h l r' a b : s = c_pct :: h :: l :: r' -> hex_val h = Some a -> hex_val l = Some b ->
+                      percent_decode s = (a * 16 + b) :: percent_decode r' -> pd_step s.
+
+Lemma pd_step_all s : pd_step s.
+Proof.
+  destruct s as [|c r]; [apply PD_nil; reflexivity|].
+  cbn [percent_decode]. destruct (c =? c_pct) eqn:Ec.
+  - apply N.eqb_eq in Ec. subst c.
+    destruct r as [|h [|l r']].
+    + eapply PD_lit; [reflexivity|cbn [percent_decode]; rewrite N.eqb_refl; reflexivity|].
+      intros _ h l r' E. discriminate.
+    + eapply PD_lit; [reflexivity|cbn [percent_decode]; rewrite N.eqb_refl; reflexivity|].
+      intros _ h' l r' E. discriminate.
+    + destruct (hex_val h) as [a|] eqn:Eh.
+      * destruct (hex_val l) as [b|] eqn:El.
+        -- eapply PD_esc; [reflexivity|eassumption|eassumption|].
+           cbn [percent_decode]. rewrite N.eqb_refl, Eh, El. reflexivity.
+        -- eapply PD_lit; [reflexivity|cbn [percent_decode]; rewrite N.eqb_refl, Eh, El; reflexivity|].
+           intros _ h' l' r'' E. inversion E; subst. right. assumption.
+      * eapply PD_lit; [reflexivity|cbn [percent_decode]; rewrite N.eqb_refl, Eh; reflexivity|].
+        intros _ h' l' r'' E. inversion E; subst. left. assumption.
+  - eapply PD_lit; [reflexivity|cbn [percent_decode]; rewrite Ec; reflexivity|].
+    intros E. subst c. rewrite N.eqb_refl in Ec. discriminate.
+Qed.
+
+Lemma hex_val_some c a : hex_val c = Some a -> c <> c_dot /\ c <> c_slash /\ c <> c_pct.
+Proof.
+  unfold hex_val, c_dot, c_slash, c_pct.
+  destruct ((48 <=? c) && (c <=? 57)) eqn:E1; [lia|].
+  destruct ((65 <=? c) && (c <=? 70)) eqn:E2; [lia|].
+  destruct ((97 <=? c) && (c <=? 102)) eqn:E3; [lia|discriminate].
+Qed.
+
+Lemma pd_hd c s : c <> c_pct -> hd_is c s = true -> hd_is c (percent_decode s) = true.
+Proof.
+  intros Hc. destruct s as [|x r]; [discriminate|]. cbn [hd_is]. intros H. apply N.eqb_eq in H. subst x.
+  cbn [percent_decode]. replace (c =? c_pct) with false by (symmetry; apply N.eqb_neq; exact Hc).
+  cbn [hd_is]. apply N.eqb_refl.
+Qed.
+
+(** a "./" in the raw path is still there after decoding *)
+Lemma pd_keeps_dot_slash s : has_dot_slash_b s = true -> has_dot_slash_b (percent_decode s) = true.
+Proof.
+  remember (length s) as n eqn:Hn. revert s Hn.
+  induction n as [n IH] using lt_wf_ind. intros s Hn.
+  destruct (pd_step_all s) as [E|c r E L _|h l r' a b E Hh Hl L].
+  - subst. discriminate.
+  - subst s. rewrite L, !has_dot_slash_b_cons. intros H. apply orb_true_iff in H as [H|H].
+    + apply andb_true_iff in H as [H1 H2]. rewrite H1. rewrite pd_hd; [reflexivity| |exact H2].
+      unfold c_slash, c_pct. lia.
+    + rewrite (IH (length r)); [apply orb_true_r|subst n; cbn [length]; lia|reflexivity|exact H].
+  - subst s. rewrite L. rewrite !has_dot_slash_b_cons.
+    destruct (hex_val_some _ _ Hh) as (Hh1 & _). destruct (hex_val_some _ _ Hl) as (Hl1 & _).
+    replace (c_pct =? c_dot) with false by reflexivity.
+    replace (h =? c_dot) with false by (symmetry; apply N.eqb_neq; exact Hh1).
+    replace (l =? c_dot) with false by (symmetry; apply N.eqb_neq; exact Hl1).
+    cbn [andb orb]. intros H.
+    rewrite (IH (length r')); [apply orb_true_r|subst n; cbn [length]; lia|reflexivity|exact H].
+Qed.
+
+(** ------------------------------------------------------------------ *)
+(** * Theorem 3: the internal [/./…] routes cannot be named by a client *)
+
+Lemma internal_routes_lemma p :
+  sanitize_path p = Ok tt ->
+  ~ has_dot_slash p /\ ~ has_dot_slash (percent_decode p) /\
+  (forall key, has_dot_slash key -> p <> key /\ percent_decode p <> key).
+Proof.
+  rewrite sanitize_path_spec. destruct (unsafe_b (percent_decode p)) eqn:U; [discriminate|]. intros _.
+  unfold unsafe_b in U. apply orb_false_iff in U as [U _].
+  assert (A : ~ has_dot_slash (percent_decode p)).
+  { rewrite <- has_dot_slash_iff. rewrite U. discriminate. }
+  assert (B : ~ has_dot_slash p).
+  { rewrite <- has_dot_slash_iff. intros H. apply pd_keeps_dot_slash in H. congruence. }
+  split; [exact B|]. split; [exact A|].
+  intros key Hk; split; intros E; [apply B|apply A]; rewrite E; exact Hk.
+Qed.
+
+Lemma starts_with_has_dot_slash k : starts_with [c_slash; c_dot; c_slash] k = true -> has_dot_slash k.
+Proof.
+  intros H. apply starts_with_app in H as [r ->]. exists [c_slash], r. reflexivity.
+Qed.
+
+(** ------------------------------------------------------------------ *)
+(** * Theorem 4: one decoding *)
+
+Lemma one_decoding_lemma p d :
+  decoded_for_use p = Some d ->
+  decoded_for_check p = d /\ util_percent_decode p = d /\ d = percent_decode p.
+Proof.
+  intros H. apply decoded_for_use_some in H as [-> V].
+  unfold decoded_for_check, util_percent_decode. rewrite V, lossy_valid by assumption. auto.
+Qed.
+
+Lemma no_decoding_no_path host public p :
+  decoded_for_use p = None -> request_fs_path host public p = Ok None.
+Proof. unfold request_fs_path. intros ->. reflexivity. Qed.
+
+(** decoding once: the result is not decoded again (an encoded '%' stays one '%') *)
+Lemma double_encoding_not_followed :
+  decoded_for_use (B "/%252e%252e/x") = Some (B "/%2e%2e/x").
+Proof. vm_compute. reflexivity. Qed.
+
+(** ------------------------------------------------------------------ *)
+(** * The "Expand . and /" Prime extension keeps an accepted path safe *)
+
+Definition ends_dot_or_slash (p : bytes) : Prop :=
+  ends_with_byte c_dot p = true \/ ends_with_byte c_slash p = true.
+
+Lemma ends_tail c r : r <> [] -> ends_dot_or_slash (c :: r) -> ends_dot_or_slash r.
+Proof. intros Hr. unfold ends_dot_or_slash. rewrite !ends_with_byte_cons by assumption. auto. Qed.
+
+Lemma ends_single c : ends_dot_or_slash [c] -> c = c_dot \/ c = c_slash.
+Proof. unfold ends_dot_or_slash, ends_with_byte. cbn [last]. intros [H|H]; apply N.eqb_eq in H; auto. Qed.
+
+Lemma pd_cons_lit c s : c <> c_pct -> percent_decode (c :: s) = c :: percent_decode s.
+Proof.
+  intros H. cbn [percent_decode]. replace (c =? c_pct) with false; [reflexivity|].
+  symmetry. apply N.eqb_neq. exact H.
+Qed.
+
+Lemma hex_val_dot_slash c : c = c_dot \/ c = c_slash -> hex_val c = None /\ c <> c_pct.
+Proof. intros [->| ->]; split; try reflexivity; discriminate. Qed.
+
+Lemma pd_app_end a : forall p, ends_dot_or_slash p ->
+  percent_decode (p ++ a) = percent_decode p ++ percent_decode a.
+Proof.
+  intros p. remember (length p) as n eqn:Hn. revert p Hn.
+  induction n as [n IH] using lt_wf_ind. intros p Hn E.
+  destruct p as [|c r]. { destruct E as [E|E]; discriminate. }
+  destruct r as [|h r1].
+  { apply ends_single in E. apply hex_val_dot_slash in E as [_ E].
+    cbn [app]. rewrite !pd_cons_lit by assumption. reflexivity. }
+  assert (Er : ends_dot_or_slash (h :: r1)) by (eapply ends_tail; [discriminate|eassumption]).
+  assert (IHr : percent_decode ((h :: r1) ++ a) = percent_decode (h :: r1) ++ percent_decode a).
+  { apply (IH (length (h :: r1))); [subst n; cbn [length]; lia|reflexivity|exact Er]. }
+  destruct (N.eq_dec c c_pct) as [->|Hc].
+  2:{ change ((c :: h :: r1) ++ a) with (c :: ((h :: r1) ++ a)).
+      rewrite !pd_cons_lit by assumption. rewrite IHr. reflexivity. }
+  destruct r1 as [|l r2].
+  { (* "%h" with h = '.' or '/' *)
+    apply ends_single in Er. apply hex_val_dot_slash in Er as [Hh _].
+    assert (L : forall s, percent_decode (c_pct :: h :: s) = c_pct :: percent_decode (h :: s)).
+    { intros s. cbn [percent_decode]. rewrite N.eqb_refl. destruct s; [reflexivity|]. rewrite Hh. reflexivity. }
+    change ((c_pct :: [h]) ++ a) with (c_pct :: h :: a). rewrite !L.
+    change (h :: a) with ([h] ++ a). rewrite IHr. reflexivity. }
+  destruct (hex_val h) as [x|] eqn:Hh; [destruct (hex_val l) as [y|] eqn:Hl|].
+  - (* a real escape: the rest is non-empty and ends the same way *)
+    assert (L : forall s, percent_decode (c_pct :: h :: l :: s) = (x * 16 + y) :: percent_decode s).
+    { intros s. cbn [percent_decode]. rewrite N.eqb_refl, Hh, Hl. reflexivity. }
+    change ((c_pct :: h :: l :: r2) ++ a) with (c_pct :: h :: l :: (r2 ++ a)). rewrite !L.
+    destruct r2 as [|z r3].
+    { exfalso. assert (El : ends_dot_or_slash [l]) by (eapply ends_tail; [discriminate|eassumption]).
+      apply ends_single in El. apply hex_val_dot_slash in El as [El _]. congruence. }
+    rewrite (IH (length (z :: r3))); [reflexivity|subst n; cbn [length]; lia|reflexivity|].
+    eapply ends_tail; [discriminate|]. eapply ends_tail; [discriminate|eassumption].
+  - assert (L : forall s, percent_decode (c_pct :: h :: l :: s) = c_pct :: percent_decode (h :: l :: s)).
+    { intros s. cbn [percent_decode]. rewrite N.eqb_refl, Hh, Hl. reflexivity. }
+    change ((c_pct :: h :: l :: r2) ++ a) with (c_pct :: h :: l :: (r2 ++ a)). rewrite !L.
+    change (h :: l :: r2 ++ a) with ((h :: l :: r2) ++ a). rewrite IHr. reflexivity.
+  - assert (L : forall s, percent_decode (c_pct :: h :: l :: s) = c_pct :: percent_decode (h :: l :: s)).
+    { intros s. cbn [percent_decode]. rewrite N.eqb_refl, Hh. reflexivity. }
+    change ((c_pct :: h :: l :: r2) ++ a) with (c_pct :: h :: l :: (r2 ++ a)). rewrite !L.
+    change (h :: l :: r2 ++ a) with ((h :: l :: r2) ++ a). rewrite IHr. reflexivity.
+Qed.
+
+Lemma hd_is_app c u x : u <> [] -> hd_is c (u ++ x) = hd_is c u.
+Proof. destruct u; [congruence|reflexivity]. Qed.
+
+Lemma has_dot_slash_b_app u x :
+  has_dot_slash_b (u ++ x) =
+  has_dot_slash_b u || (ends_with_byte c_dot u && hd_is c_slash x) || has_dot_slash_b x.
+Proof.
+  induction u as [|c u IH]; [reflexivity|].
+  cbn [app]. rewrite !has_dot_slash_b_cons, IH.
+  destruct u as [|c' u'].
+  - cbn [app hd_is has_dot_slash_b ends_with_byte last]. rewrite andb_false_r. reflexivity.
+  - rewrite hd_is_app by discriminate. rewrite (ends_with_byte_cons c_dot c (c' :: u')) by discriminate.
+    destruct ((c =? c_dot) && hd_is c_slash (c' :: u')); cbn [orb]; [reflexivity|].
+    reflexivity.
+Qed.
+
+Definition benign_suffix (a : bytes) : Prop :=
+  has_dot_slash_b (percent_decode a) = false /\ hd_is c_slash (percent_decode a) = false.
+Definition benign_host (h : host_cfg) : Prop :=
+  benign_suffix (h_ext_default h) /\ benign_suffix (h_folder_default h).
+
+Lemma append_safe p a :
+  unsafe_b (percent_decode p) = false -> ends_dot_or_slash p -> benign_suffix a ->
+  unsafe_b (percent_decode (p ++ a)) = false.
+Proof.
+  intros U E [B1 B2]. rewrite pd_app_end by assumption.
+  destruct (percent_decode p) as [|c t] eqn:Ep; [discriminate|].
+  rewrite unsafe_b_cons in U. apply orb_false_iff in U as [U1 U2]. apply orb_false_iff in U2 as [U2 U3].
+  change ((c :: t) ++ percent_decode a) with (c :: (t ++ percent_decode a)).
+  rewrite unsafe_b_cons. change (c :: t ++ percent_decode a) with ((c :: t) ++ percent_decode a).
+  rewrite has_dot_slash_b_app, U1, B1, B2, U2, andb_false_r. cbn [orb].
+  destruct t as [|c' t']; [exact B2|]. rewrite hd_is_app by discriminate. exact U3.
+Qed.
+
+Lemma ends_with_byte_true c p : ends_with_byte c p = true -> p <> [].
+Proof. destruct p; [discriminate|discriminate]. Qed.
+
+Lemma primed_safe h p :
+  benign_host h -> unsafe_b (percent_decode p) = false ->
+  unsafe_b (percent_decode (primed_path h p)) = false.
+Proof.
+  intros [Be Bf] U. unfold primed_path, uri_redirect.
+  destruct (h_redirect h); [|exact U].
+  destruct (ends_with_byte c_dot p) eqn:E1.
+  { apply append_safe; [exact U|left; exact E1|exact Be]. }
+  destruct (ends_with_byte c_slash p) eqn:E2; [|exact U].
+  apply append_safe; [exact U|right; exact E2|exact Bf].
+Qed.
+
+Lemma benign_defaults : benign_suffix (B "html") /\ benign_suffix (B "index.html").
+Proof. split; split; vm_compute; reflexivity. Qed.
+
+(** ------------------------------------------------------------------ *)
+(** * The pipeline *)
+
+Definition silent (ev : list event) : Prop := forallb (fun e => negb (is_prepare_or_read e)) ev = true.
+
+Lemma unsafe_is_400_and_silent_lemma h fs m ov cached p :
+  unsafe (percent_decode p) ->
+  let '(r, ev) := serve h fs m ov cached p in
+  r_status r = 400 /\ r_body r = None /\ r_from_cache r = false /\ silent ev.
+Proof.
+  intros U. apply unsafe_is_rejected_lemma in U. unfold serve. rewrite U.
+  destruct cached, m; cbn; repeat split; reflexivity.
+Qed.
+
+Lemma sanitize_ok_safe p u : sanitize_path p = Ok u -> unsafe_b (percent_decode p) = false.
+Proof. rewrite sanitize_path_spec. destruct (unsafe_b (percent_decode p)); [discriminate|reflexivity]. Qed.
+
+(** Whatever the configuration (benign default suffixes), the method, the Prime override and
+    the Prepare table: a file content in the reply comes from inside the public directory. *)
+Lemma served_file_inside_lemma h root cwd P m ov p r ev c :
+  benign_host h -> wf_pos root -> wf_pos cwd ->
+  resolve_path root cwd (h_path h ++ [c_slash] ++ h_public h) = Some P ->
+  serve h (read_path root cwd) m ov None p = (r, ev) ->
+  r_body r = Some c ->
+  exists names, names <> [] /\ Forall (fun s => proper_name s = true) names /\
+                descend (fst P) names = Some (File c).
+Proof.
+  intros Bh Wr Wc RP. unfold serve.
+  destruct (sanitize_path p) as [u| |] eqn:S.
+  2,3: (intros H; inversion H; subst; cbn [r_body]; discriminate).
+  apply sanitize_ok_safe in S. apply (primed_safe h p Bh) in S.
+  cbn zeta.
+  destruct (request_fs_path (h_path h) (h_public h) (primed_path h p)) as [path| |] eqn:F.
+  2,3: (intros H; inversion H; subst; cbn [r_body]; discriminate).
+  destruct (existsb _ (h_prepare_single h)).
+  { intros H; inversion H; subst; cbn [r_body]; discriminate. }
+  destruct path as [f|]; [|intros H; inversion H; subst; cbn [r_body]; discriminate].
+  assert (G : forall c', read_path root cwd f = Some c' -> c' = c ->
+              exists names, names <> [] /\ Forall (fun s => proper_name s = true) names /\
+                            descend (fst P) names = Some (File c)).
+  { intros c' R ->. exact (served_content_safe (primed_path h p) (h_path h) (h_public h) f root cwd P c S F Wr Wc RP R). }
+  destruct m.
+  3: (intros H; inversion H; subst; cbn [r_body]; discriminate).
+  all: destruct (read_path root cwd f) as [c'|] eqn:R;
+    intros H; inversion H; subst; cbn [r_body]; intros Hb; try discriminate;
+    inversion Hb; subst; eapply G; reflexivity.
+Qed.
+
+(** Without a Prime override, no Prepare key contains "./": the internal routes are
+    consulted only when a Prime extension produced them. *)
+Lemma prepare_key_lemma h fs m cached p r ev key :
+  benign_host h ->
+  serve h fs m None cached p = (r, ev) ->
+  In (EPrepareSingle key) ev \/ In (EPrepareRun key) ev ->
+  key = primed_path h p /\ ~ has_dot_slash key.
+Proof.
+  intros Bh. unfold serve.
+  destruct (sanitize_path p) as [u| |] eqn:S.
+  2,3: (destruct cached, m; intros H; inversion H; subst; cbn [app In];
+        intros [K|K]; repeat (destruct K as [K|K]; try discriminate); contradiction).
+  apply sanitize_ok_safe in S. apply (primed_safe h p Bh) in S.
+  assert (N : ~ has_dot_slash (primed_path h p)).
+  { rewrite <- has_dot_slash_iff. intros H. apply pd_keeps_dot_slash in H.
+    unfold unsafe_b in S. apply orb_false_iff in S as [S _]. congruence. }
+  cbn zeta.
+  assert (Fin : forall l, (In (EPrepareSingle key) l \/ In (EPrepareRun key) l) ->
+          (forall e, In e l -> e = EPrepareSingle (primed_path h p) \/ e = EPrepareRun (primed_path h p) \/
+                                 is_prepare_or_read e = false \/ e = EPrepareFn \/ exists f, e = EFsRead f) ->
+          key = primed_path h p /\ ~ has_dot_slash key).
+  { intros l [K|K] A; destruct (A _ K) as [E|[E|[E|[E|[f E]]]]]; try discriminate; inversion E; subst; auto. }
+  destruct (request_fs_path (h_path h) (h_public h) (primed_path h p)) as [path| |];
+  destruct cached as [cr|], m; try destruct (existsb _ (h_prepare_single h)); try destruct path as [f|];
+  try destruct (fs f);
+  intros H; inversion H; subst; intros K; apply (Fin _ K); cbn [app In]; intros ee Ie;
+  repeat (destruct Ie as [Ie|Ie]; [subst ee; auto 6; try (right; right; right; right; eexists; reflexivity)|]); contradiction.
+Qed.
+
+(** ------------------------------------------------------------------ *)
+(** * What was wrong before the repair (kept as a witness)
+    [sanitize_request] tested [kvarn_utils::percent_decode(path)], which is the UNDECODED text when
+    the decoding is not UTF-8: an encoded "./" (or a second '/') next to a non-UTF-8 escape passed. *)
+Lemma old_check_accepts_hidden_dot_slash :
+  path_ok_of (util_percent_decode (B "/%2e%2e/%ff")) = true /\ unsafe (percent_decode (B "/%2e%2e/%ff")) /\
+  path_ok_of (util_percent_decode (B "/%2f%ff")) = true /\ unsafe (percent_decode (B "/%2f%ff")).
+Proof.
+  repeat split; try (vm_compute; reflexivity); apply unsafe_b_iff; vm_compute; reflexivity.
 Qed.
